@@ -229,6 +229,23 @@ class Executor(Engine, ExprMixin, StmtMixin, CallMixin):
         if c.fresh_result:
             self.alloc_k += 1
             self.assume(st, z3.Implies(Val.is_R(rt), Val.r(rt) == self.alloc0 + self.alloc_k))
+            # a freshly allocated result: all declared fields of its class hold some type-correct value
+            from .model import SCHEMA
+            if rspec is not None and rspec.kind == 'obj':
+                done = set()
+                for k in rspec.classes:
+                    for d in UNIVERSE.subclasses(k) or [k]:
+                        for base_cls in d.__mro__:
+                            for (kk, fname) in list(SCHEMA):
+                                if kk is base_cls and fname not in done and all(
+                                        any((b2, fname) in SCHEMA for b2 in k2.__mro__) for k2 in rspec.classes):
+                                    done.add(fname)
+                                    fs = field_spec(rspec.classes, fname)
+                                    nv = fresh('fr_' + fname)
+                                    if fs is not None:
+                                        self.assume(st, fs.assumption(nv))
+                                    self.known_ref(st, nv)
+                                    self.store(st, Val.r(rt), fname, nv)
         else:
             self.known_ref(st, rt)
         res = V(rt, rspec)
